@@ -85,6 +85,19 @@ class _Real:
             return m.PingSequenceStart.from_ping_values(spec[1], spec[2])
         if k == "flaky":
             return _flaky_start(self.SequenceStart, spec[1])
+        if k == "derived":
+            # an application's own start class built on one of the library's (a start backed by session state):
+            # what counts is its `value`, whatever the base class stored at construction
+            base = [m.AccountReplySequenceStart, m.InitSequenceStart, m.PingSequenceStart][spec[2] % 3]
+            live = spec[1]
+            cls = type("SessionStart", (base,), {"value": property(lambda self_: self_._live)})
+            obj = cls.__new__(cls)
+            if base is m.AccountReplySequenceStart:
+                base.__init__(obj, 7)
+            else:
+                base.__init__(obj, 7, 1, 6)
+            obj._live = live
+            return obj
         gen = {"gen_init": m.InitSequenceStart, "gen_ping": m.PingSequenceStart,
                "gen_account": m.AccountReplySequenceStart}.get(k)
         if gen is None:
@@ -435,6 +448,7 @@ def _strategy():
         st.builds(lambda x, y: ["gen_ping", x, y], st.integers(0, 1756), st.integers(0, 252)),
         st.builds(lambda x: ["gen_account", x], st.integers(0, 239)),
         st.builds(lambda v: ["flaky", v], st.one_of(st.integers(0, 1756), boundary)),
+        st.builds(lambda v, b: ["derived", v, b], st.one_of(st.integers(0, 1756), boundary), st.integers(0, 2)),
     )
     setop = st.builds(lambda s: ["s", s], spec)
     op = st.one_of(st.just("n"), st.just("n"), st.just("n"), setop, st.just("nf"), st.builds(lambda s: ["sf", s], spec),
